@@ -61,7 +61,9 @@ def run(ctx):
     ctx.extra['mc_ls_scenarios_replayed'] = len(grid)
     n = 6000 if ctx.quick else 150000
     cfgs = [('v6', dict(arch_version=6)), ('v7', dict(arch_version=7)),
-            ('v6hi', dict(arch_version=6, memory_list=HI_MEM)), ('v7hi', dict(arch_version=7, memory_list=HI_MEM))]
+            ('v6hi', dict(arch_version=6, memory_list=HI_MEM)), ('v7hi', dict(arch_version=7, memory_list=HI_MEM)),
+            # with the Large Physical Address Extension a doubleword-aligned LDRD / STRD is one 8-byte access (same result)
+            ('v7lpae', dict(arch_version=7, have_lpae=True))]
     res = F.run_family(ctx, 'ls', n, {'endian': True, 'align_ctl': True, 'data_ptrs': True, 'hi': True}, F.exact_filter, configs=cfgs,
                        extra_groups=ggroups)
     notexact = sum(1 for g, e, v in res if g.name.startswith('mcls-') and not v['path'].startswith('exact:'))
